@@ -31,4 +31,5 @@ def run(tier, seed):
                                          'year, every hour, minute, second; years 1..9999 at 9 values; date-only texts',
                                'claim': 'get_date(text written for a date bound) == that datetime'})
     attach(ctx, sb.run((PID,), tier, seed))
-    return finish(ctx, 'other')
+    from runner.core import companion_replayer
+    return finish(ctx, 'other', replayers=[(r'.', companion_replayer(ctx, ('C09.',)))])
